@@ -209,8 +209,16 @@ class LinkContainer(Container):
     def extend(self, items):
         if not isinstance(items, Iterable):
             raise TypeError("{} object is not iterable".format(type(items)))
-        for item in items:
-            self.append(item)
+        known = set(grp.name for grp in self._backend)
+        try:
+            for item in items:
+                self.append(item)
+        except Exception:
+            # a refused item must not leave the items before it linked
+            for grp in list(self._backend):
+                if grp.name not in known:
+                    self._backend.delete(grp.name, exact=True)
+            raise
 
     def __getitem__(self, identifier):
         if isinstance(identifier, int):
